@@ -927,6 +927,29 @@ func (e *Env) evalCall(n *spec.Call) (SV, error) {
 			return SV{}, fmt.Errorf("wf() of untyped value")
 		}
 		return SV{T: vc.tt.wf(v.Ty, v.T, e.state().Alloc)}, nil
+	case "visited":
+		// visited(N, k): has the map range loop with ordinal N already produced key k?
+		lit, ok := n.Args[0].(*spec.IntLit)
+		if !ok || e.fr == nil {
+			return SV{}, fmt.Errorf("visited(N, k) needs a literal loop ordinal and a function context")
+		}
+		kv, err := arg(1)
+		if err != nil {
+			return SV{}, err
+		}
+		for _, li := range e.fr.loops {
+			if int64(li.ordinal) != lit.Val.Int64() {
+				continue
+			}
+			for _, in := range li.header.Instrs {
+				if nx, ok := in.(*ssa.Next); ok {
+					if ri := e.fr.rangeOf[nx.Iter]; ri != nil && ri.gv != "" {
+						return SV{T: Select(vc.heap(e.state(), ri.gv), kv.T)}, nil
+					}
+				}
+			}
+		}
+		return SV{}, fmt.Errorf("visited: loop %s is not a map range", lit.Val)
 	case "concat":
 		// concat(a, b): Go string concatenation a + b
 		a, err := arg(0)
